@@ -38,8 +38,9 @@ def repo_modules():
     if _state["mods"] is None:
         mods = [importlib.import_module(n) for n in REPO_MODULE_NAMES]
         import os
+        repo = os.path.realpath(os.environ.get("VERIF_REPO", "/repo")) + "/"
         for m in mods:
-            assert os.path.realpath(m.__file__).startswith("/repo/"), m.__file__
+            assert os.path.realpath(m.__file__).startswith(repo), (m.__file__, repo)
         _state["mods"] = mods
         from .ifconv import ConvertedModule
         _state["conv"] = [ConvertedModule(m) for m in mods]
